@@ -16,3 +16,10 @@ func Inventory(p *core.Prog) {
 	}
 	fmt.Println("handlers:", len(h))
 }
+
+// InventoryTransfers prints every AddTransfer site with resolved components.
+func InventoryTransfers(p *core.Prog) {
+	for _, ts := range TransferSites(p.ModFuncs()) {
+		fmt.Printf("%s  in %s\n   from=%s\n   to=%s\n   amt=%s\n", p.Pos(ts.Site.Pos()), ts.Fn.String(), describe(ts.From), describe(ts.To), describe(ts.Amount))
+	}
+}
